@@ -129,12 +129,14 @@ func EvidenceClass(r *Run, b *BlockCtx, extra map[string]interface{}) string {
 	}
 	for _, t := range b.EvidenceVals {
 		before, after := pst.GetValidatorByMainAddr(t), post.GetValidatorByMainAddr(t)
-		if before == nil || after == nil {
+		if before == nil {
 			continue
 		}
-		changed := before.Expelled != after.Expelled || before.ExpelExpired != after.ExpelExpired || before.Status != after.Status
+		// (the accused may be gone after the block: a full withdrawal taking effect at a period end
+		// deletes it; its withdraw records still tell whether something was taken)
+		changed := after != nil && (before.Expelled != after.Expelled || before.ExpelExpired != after.ExpelExpired || before.Status != after.Status)
 		var taken []string
-		if after.Token.Cmp(before.Token) < 0 {
+		if after != nil && after.Token.Cmp(before.Token) < 0 && !b.PeriodEnd {
 			taken = append(taken, fmt.Sprintf("validator token %v -> %v", before.Token, after.Token))
 		}
 		was := map[string]*big.Int{}
@@ -152,7 +154,11 @@ func EvidenceClass(r *Run, b *BlockCtx, extra map[string]interface{}) string {
 			continue
 		}
 		extra["accused_before"] = mon.ValString(before)
-		extra["accused_after_on_builder"] = mon.ValString(after)
+		if after != nil {
+			extra["accused_after_on_builder"] = mon.ValString(after)
+		} else {
+			extra["accused_after_on_builder"] = "deleted in this block"
+		}
 		extra["header_slashdata"] = "empty"
 		pa := r.W.YP.PenaltyTo
 		extra["penalty_account_on_builder"] = fmt.Sprintf("%v -> %v", pst.GetBalance(pa), post.GetBalance(pa))
